@@ -51,7 +51,10 @@ Unset(a) == [set |-> 0, v |-> Zero(a)]
 Val(a, v) == [set |-> 1, v |-> v]
 \* instance state: [vals : attr -> slot, runs : attr -> nat (default method runs), calls : nat,
 \*                  extra : "none" | contents of an instance trait added with add_trait, regs : nat]
-NewInst == [vals |-> [a \in Attrs |-> Unset(a)], runs |-> [a \in Dynamic |-> 0], calls |-> 0, extra |-> [set |-> 0, v |-> <<>>], regs |-> 0]
+\*                  w : the slot of the attribute w1, which falls under the class's wildcard w_ = Int; wobs : observers the
+\*                  instance registered for w1 with an expression that waits for the name to appear (optional trait)
+NewInst == [vals |-> [a \in Attrs |-> Unset(a)], runs |-> [a \in Dynamic |-> 0], calls |-> 0, extra |-> [set |-> 0, v |-> <<>>], regs |-> 0,
+            w |-> [set |-> 0, v |-> 0], wobs |-> 0]
 Materialise(st, a, sub) ==
   IF st.vals[a].set = 1 THEN st
   ELSE [st EXCEPT !.vals[a] = Val(a, Default(a, sub)), !.runs = IF a \in Dynamic THEN [@ EXCEPT ![a] = @ + 1] ELSE @]
@@ -80,8 +83,12 @@ Register(st)       == [st |-> [st EXCEPT !.regs = @ + 1], ret |-> "ok"]         
 AddTrait(st)       == [st |-> [st EXCEPT !.extra = [set |-> 1, v |-> <<>>]], ret |-> "ok"]                            \* add_trait("extra", List(Int))
 MutateExtra(st)    == IF st.extra.set = 0 THEN [st |-> st, ret |-> "AttributeError"]
                       ELSE [st |-> [st EXCEPT !.extra.v = Append(@, 9), !.calls = @ + 1], ret |-> "ok"]   \* its own extra_items handler
+\* observers on a name under a wildcard: told of the instance's own changes of w1, of nobody else's
+WObserve(st) == [st |-> [st EXCEPT !.wobs = @ + 1], ret |-> "ok"]
+WAssign(st, v) == [st |-> [st EXCEPT !.w = [set |-> 1, v |-> v], !.calls = @ + (IF st.w.v # v THEN st.wobs ELSE 0)], ret |-> "ok"]
 Apply(op, st, a, v, sub) ==
-  CASE op = "read" -> Read(st, a, sub) [] op = "mutate" -> Mutate(st, a, sub) [] op = "assign" -> Assign(st, a, v, sub)
+  CASE op = "wobserve" -> WObserve(st) [] op = "wassign" -> WAssign(st, v)
+    [] op = "read" -> Read(st, a, sub) [] op = "mutate" -> Mutate(st, a, sub) [] op = "assign" -> Assign(st, a, v, sub)
     [] op = "delete" -> Delete(st, a, sub) [] op = "register" -> Register(st) [] op = "add_trait" -> AddTrait(st)
     [] op = "mutate_extra" -> MutateExtra(st)
     [] op = "query" -> [st |-> st, ret |-> "ok"]        \* trait_names() / traits() / class_trait_names() / ...: pure
